@@ -38,3 +38,9 @@ def cores_are_nested_bd(CIJ, k):
     B, kb = kcore_bd(CIJ, k + 1)
     A, ka = kcore_bd(CIJ, k)
     return A, B
+
+
+def score_cores_are_nested(CIJ, s1, s2):
+    B, sb = score_wu(CIJ, s2)
+    A, sa = score_wu(CIJ, s1)
+    return A, B
